@@ -134,7 +134,12 @@ SimpleHead(e) == e[1] \in {"zero", "one", "of_nat", "plus", "minus"}
 GoalsB == UNION { { Rel("equals", T, pq[1][1], pq[2][1]) :
                     pq \in { x \in WithEv(T) \X WithEv(T) : (FullEq /\ SimpleHead(x[2][1])) \/ EqByModel(x[1][2], x[2][2]) } } : T \in NumT }
 GoalsN == { Not(g) : g \in { x \in GoalsA : x[3][2] \in { Num(ArgT(x), 0) } \cup (IF FullEq THEN { Num(ArgT(x), 2) } ELSE {}) /\ x[3][1] \in D2(ArgT(x)) } }
-Goals == GoalsA \cup GoalsB \cup GoalsN
+\* real powers whose natural-number exponent is itself a nested (possibly underflowing) truncated subtraction b - (c - d),
+\* against the powers of the same base, the base and 1: the exponent must be computed with the arithmetic of naturals
+ExpDeep == { Pow("real", "nat", a, Bin("minus", "nat", b, Bin("minus", "nat", c, d))) :
+             a \in Leaves("real"), b \in Leaves("nat"), c \in Leaves("nat"), d \in Leaves("nat") }
+GoalsX == UNION { { Rel("equals", "real", l, r) : r \in { Pow("real", "nat", l[3][1], k) : k \in Leaves("nat") } \cup { l[3][1], Num("real", 1) } } : l \in ExpDeep }
+Goals == GoalsA \cup GoalsB \cup GoalsN \cup GoalsX
 
 \* ---------------------------------------------------------------- the machine
 VARIABLES goal, step, out
